@@ -68,13 +68,19 @@ ASSUMPTIONS = [
     '(kind oracle:pos-env); not assumed for splrep',
     'unwrap_model: Phase.unwrap reproduces np.unwrap (period 2pi) away from exact ties',
     'columns are processed independently along axis 0 (every column is compared with the model separately)',
+    'not judged literally (literal=False or tag only): fewer than two samples, invalid mode / method values (any error counts as rejected), '
+    'columns that are not IMFs (no extrema / no upper envelope), wrap_phase with ncycles > 1 or mode -pi2pi, the phase_jump conventions other '
+    'than the one frequency_transform uses, quadrature sign / modulus and amplitude_normalise sign / clip / identity / input conventions, '
+    'one-sided edge samples of the derivative and of the round trip, every assumption:* / oracle:* validator; the cumulative sum may be '
+    'inclusive or exclusive of the start sample; time-outs are tagged',
 ]
 RULE = ('wrap_phase: dyadic / random / huge / tiny-negative / exact-multiple inputs x ncycles 1-3 x both modes (+ invalid mode); '
         'conversions: freq_from_phase, phase_from_freq, np.gradient on dyadic and random arrays, n 0-300, 1-3 columns, 1-D and 2-D; '
         'freq_phase_roundtrip: constant / piecewise-constant / smooth random / chirp profiles; '
         'phase_from_complex_signal: 4 phase-jump conventions x wrapped/unwrapped x smoothing on/off on scipy analytic signals; '
         'frequency_transform: sine, chirp, AM-FM, two-tone, white and smoothed noise, sifted IMFs, degenerate (constant, ramp, '
-        'zeros, one peak between two troughs, ramp next to a sine, n<2) x {hilbert,nht,quad} x 1-3 columns x sample rates x 2^k and random positive rescaling; '
+        'zeros, one peak between two troughs, ramp next to a sine, n<2) x {hilbert,nht,quad} x 1-3 columns x sample rates x 2^k (k from -100 to 60: small '
+        'physical units are ordinary data) and random positive rescaling, judged within rounding (1e-9), literally on IMF columns only; '
         'sinusoid_recovery: sr in 7 values, n 512-4096, f log-uniform from 4 cycles per record to sr/12, amplitude log-uniform '
         'over 3 decades, phase uniform in [0,2pi), 1-3 columns x 3 methods; quadrature, amplitude_normalise: same families with '
         'envelope tables from the real interp_envelope (amplitude_normalise also x interp_method pchip / mono_pchip / splrep). Non-trivial: the case exercises a non-default branch (negative or '
@@ -86,6 +92,31 @@ TP = P.TWO_PI
 
 def _err(out):
     return out['error'] if isinstance(out, ImplError) else None
+
+
+def _timeout(out):
+    return isinstance(out, ImplError) and 'imeout' in str(out.get('error'))
+
+
+def _mech(kind, detail=''):
+    """mechanism-level / assumption / outside-the-quantifier check: a broken correspondence, never a property violation"""
+    return Failure(kind, detail, literal=False)
+
+
+def _guarded(holds):
+    """a crash of the instance check itself is never a property violation; time-outs are not the property's subject"""
+    def wrapped(self, case, out):
+        if _timeout(out):
+            return []
+        try:
+            return holds(self, case, out)
+        except Exception as ex:  # noqa
+            return [Failure('instance-check-crashed', repr(ex), literal=False)]
+    wrapped.__name__ = holds.__name__
+    return wrapped
+
+
+POW2_TOL = 1e-9          # "unchanged" / "scales with it" under 2^k: within rounding, not bit for bit
 
 
 def _arr(x, vector):
@@ -142,7 +173,6 @@ class Wrap(Stream):
     def impl(self, case):
         import emd
         x = np.array(case['x'], dtype=float)
-        x.setflags(write=False)
         return P.tolist(emd.utils.wrap_phase(x, ncycles=case['ncycles'], mode=case['mode']))
 
     def ops(self, case, out):
@@ -152,8 +182,11 @@ class Wrap(Stream):
 
     def compare(self, case, out, results):
         r = results[0]
+        if _timeout(out):
+            return 'skip:run time is not the property\'s subject'
         if r.status == 'err':
-            return None if _err(out) == r.words[0] else 'model raises %s, implementation: %s' % (r.words[0], _err(out) or 'returns')
+            # an invalid option value is outside the quantifier: both refuse (any exception class), or not judged
+            return None if _err(out) else 'skip:input outside the quantifier: the model refuses it, the implementation returns a result'
         if _err(out):
             return 'implementation raised %s, model: %s' % (_err(out), r.raw[:80])
         if not r.ok:
@@ -179,11 +212,15 @@ class Wrap(Stream):
                     return 'x=%r: implementation %r, model %r' % (x, o, float(q))
         return 'skip:near-period-boundary' if near else None
 
+    @_guarded
     def holds(self, case, out):
+        # literal: the wrap the frequency transform uses (one cycle, [0, 2pi)); other modes / cycle counts and invalid option
+        # values are helper options outside the statement (mechanism level, any error counts as "rejected")
+        lit = case['mode'] == '2pi' and case['ncycles'] == 1
         if case['mode'] not in ('2pi', '-pi2pi'):
-            return [] if _err(out) == 'ValueError' else [Failure('invalid-mode-accepted', repr(case['mode']))]
+            return [] if _err(out) else [_mech('invalid-mode-accepted', repr(case['mode']))]
         if _err(out):
-            return [Failure('raises:' + out['error'], out['msg'])]
+            return [Failure('raises:' + out['error'], out['msg'], literal=lit)]
         m, h = self._m(case)
         lo = 0.0 if case['mode'] == '2pi' else -h
         fs = {}
@@ -200,6 +237,8 @@ class Wrap(Stream):
             k = round((x - o) / m)
             if abs(P.F(x) - P.F(o) - k * P.F(m)) > 1e-9 * scale:
                 fs.setdefault('wrap-not-congruent', Failure('wrap-not-congruent', 'wrap_phase(%r) = %r differs from x by a non-integer number of periods' % (x, o)))
+        for f in fs.values():
+            f.literal = lit
         return list(fs.values())
 
     def tags(self, case, out):
@@ -283,7 +322,6 @@ class Conversions(Stream):
     def impl(self, case):
         import emd
         a = _arr(case['x'], case['vector'])
-        a.setflags(write=False)
         if case['fn'] == 'ffp':
             o = emd.spectra.freq_from_phase(a, case['sr'])
         elif case['fn'] == 'pff':
@@ -318,10 +356,15 @@ class Conversions(Stream):
         return 0.0 if case.get('family') == 'dyadic' else 1e-9 * scale
 
     def compare(self, case, out, results):
+        if _timeout(out):
+            return 'skip:run time is not the property\'s subject'
         errs = [r.words[0] for r in results if r.status == 'err']
         if errs:
-            return None if _err(out) == errs[0] else 'model raises %s, implementation: %s' % (errs[0], _err(out) or 'returns')
+            # fewer than two samples: outside the quantifier - both refuse (any exception class), or not judged
+            return None if _err(out) else 'skip:input outside the quantifier: the model refuses it, the implementation returns a result'
         if _err(out):
+            if len(case['x'][0]) < 2:
+                return 'skip:input outside the quantifier: the implementation refuses it (%s), the model does not' % out['error']
             return 'implementation raised %s (%s), model: %s' % (out['error'], out['msg'][-80:], results[0].raw[:60])
         tol = self._tol(case)
         for j, (r, oc) in enumerate(zip(results, out['cols'])):
@@ -337,12 +380,13 @@ class Conversions(Stream):
                     return '%s column %d sample %d: implementation %r, model %r (tol %g)' % (case['fn'], j, i, o, float(q), tol)
         return None
 
+    @_guarded
     def holds(self, case, out):
         n = len(case['x'][0])
-        if case['fn'] in ('ffp', 'grad') and n < 2:
-            return [] if _err(out) == 'ValueError' else [Failure('short-input-accepted', '%s on %d samples: %r' % (case['fn'], n, _err(out) or 'returned'))]
+        if n < 2:
+            return []          # fewer than two samples: outside the quantifier, neither the outcome nor an error type is judged (tag n<2)
         if _err(out):
-            return [Failure('raises:' + out['error'], out['msg'])]
+            return [Failure('raises:' + out['error'], out['msg'], literal=case['fn'] != 'grad')]
         fs = []
         if out['shape'] != out['in_shape']:
             fs.append(Failure('shape-mismatch', '%s: input %s output %s' % (case['fn'], out['in_shape'], out['shape'])))
@@ -350,21 +394,34 @@ class Conversions(Stream):
         tol = max(self._tol(case), 1e-12)
         for col, oc in zip(case['x'], out['cols']):
             if case['fn'] == 'pff':
+                # phase = cumulative sum of 2 pi f / sr from the start value: the statement does not say whether sample 0
+                # already contains the first increment (inclusive, what the code does) or not (exclusive) - either is accepted
                 start = -np.pi if case.get('start') is None else case['start']
-                acc, exp = Fraction(0), []
+                acc, inc, exc = Fraction(0), [], []
                 for v in col:
+                    exc.append(float(P.F(start) + acc))
                     acc += P.F(v) / P.F(case['sr']) * P.F(2 * np.pi)
-                    exp.append(float(P.F(start) + acc))
-                kind = 'phase-not-cumulative-frequency'
-            else:
-                g = _plain_gradient([P.F(v) for v in col])
-                k = P.F(case['sr']) / P.F(2.0 * np.pi) if case['fn'] == 'ffp' else Fraction(1)
-                exp = [float(v * k) for v in g]
-                kind = 'frequency-not-scaled-gradient' if case['fn'] == 'ffp' else 'assumption:np-gradient'
+                    inc.append(float(P.F(start) + acc))
+                bads = [[i for i, (o, e) in enumerate(zip(oc, exp)) if o is None or abs(o - e) > tol] for exp in (inc, exc)]
+                if bads[0] and bads[1]:
+                    i = bads[0][0]
+                    fs.append(Failure('phase-not-cumulative-frequency', 'sample %d: got %r expected %r (sr=%r)' % (i, oc[i], inc[i], case['sr'])))
+                    break
+                continue
+            g = _plain_gradient([P.F(v) for v in col])
+            k = P.F(case['sr']) / P.F(2.0 * np.pi) if case['fn'] == 'ffp' else Fraction(1)
+            exp = [float(v * k) for v in g]
             bad = [i for i, (o, e) in enumerate(zip(oc, exp)) if o is None or abs(o - e) > tol]
             if bad:
                 i = bad[0]
-                fs.append(Failure(kind, 'sample %d: got %r expected %r (sr=%r)' % (i, oc[i], exp[i], case['sr'])))
+                interior = [b for b in bad if 0 < b < len(col) - 1]
+                if case['fn'] == 'grad':
+                    fs.append(_mech('assumption:np-gradient', 'sample %d: got %r expected %r' % (i, oc[i], exp[i])))
+                elif interior:
+                    i = interior[0]
+                    fs.append(Failure('frequency-not-scaled-gradient', 'sample %d: got %r expected %r (sr=%r)' % (i, oc[i], exp[i], case['sr'])))
+                else:       # only the two end samples differ: the one-sided edge formula is not in the statement
+                    fs.append(_mech('frequency-not-scaled-gradient:edge', 'sample %d: got %r expected %r (sr=%r)' % (i, oc[i], exp[i], case['sr'])))
                 break
         return fs
 
@@ -432,7 +489,6 @@ class Roundtrip(Stream):
     def impl(self, case):
         import emd
         f = _arr(case['f'], len(case['f']) == 1)
-        f.setflags(write=False)
         if case.get('start') is None:
             ph = emd.spectra.phase_from_freq(f, case['sr'])
         else:
@@ -475,6 +531,7 @@ class Roundtrip(Stream):
                 return 'model length'
         return None
 
+    @_guarded
     def holds(self, case, out):
         if _err(out):
             return [Failure('raises:' + out['error'], out['msg'])]
@@ -484,17 +541,29 @@ class Roundtrip(Stream):
         tol = self._tol(case)
         for f, b in zip(case['f'], out['back']):
             n = len(f)
-            for i in range(n):
-                if i == 0:
-                    e, kind = f[1], 'roundtrip-edge-wrong'
-                elif i == n - 1:
-                    e, kind = f[n - 1], 'roundtrip-edge-wrong'
-                else:
-                    e = (f[i] + f[i + 1]) / 2
-                    kind = 'roundtrip-not-exact-on-constant' if f[i] == f[i + 1] else 'roundtrip-not-two-sample-mean'
-                if b[i] is None or abs(b[i] - e) > tol:
-                    fs.append(Failure(kind, 'sample %d of %d: got %r expected %r (f[i]=%r, f[i+1]=%r, sr=%r)'
-                                      % (i, n, b[i], e, f[i], f[min(i + 1, n - 1)], case['sr'])))
+            # "up to the two-sample averaging inherent in central differences": interior sample i is the mean of two
+            # neighbouring profile values - (f[i], f[i+1]) for an inclusive cumulative sum (the code), (f[i-1], f[i]) for an
+            # exclusive one; either pairing is accepted, consistently over the column. The two end samples (one-sided
+            # differences) are not in the statement: mechanism level.
+            pair_fail = []
+            for shift in (1, -1):
+                bad = None
+                for i in range(1, n - 1):
+                    e = (f[i] + f[i + shift]) / 2
+                    if b[i] is None or abs(b[i] - e) > tol:
+                        bad = (i, e, f[i] == f[i + shift])
+                        break
+                pair_fail.append(bad)
+            if pair_fail[0] is not None and pair_fail[1] is not None:
+                i, e, const = pair_fail[0]
+                kind = 'roundtrip-not-exact-on-constant' if const else 'roundtrip-not-two-sample-mean'
+                fs.append(Failure(kind, 'sample %d of %d: got %r expected %r (f[i-1]=%r, f[i]=%r, f[i+1]=%r, sr=%r)'
+                                  % (i, n, b[i], e, f[i - 1], f[i], f[i + 1], case['sr'])))
+                return fs
+            for i, e in ((0, f[1]), (n - 1, f[n - 1])):
+                alt = f[0] if i == 0 else f[n - 2]
+                if b[i] is None or (abs(b[i] - e) > tol and abs(b[i] - alt) > tol):
+                    fs.append(_mech('roundtrip-edge-wrong', 'sample %d of %d: got %r expected %r (sr=%r)' % (i, n, b[i], e, case['sr'])))
                     return fs
         return fs
 
@@ -571,6 +640,13 @@ class FreqTransform(Stream):
             # degenerate inputs: no oscillation -> no envelope (nht/quad amplitude is NaN), tiny records
             for x in ([0.0] * 16, [1.0] * 16, [i / 16 for i in range(16)], [1.0, -1.0], [0.0, 1.0, 0.0], [1.0], []):
                 cs.append({'spec': {'n': len(x), 'sr': 10.0, 'cols': [{'kind': 'data', 'x': x}]}, 'method': m, 'k': 1, 'c': 3.0, 'vector': True})
+        for m in P.METHODS:
+            # "scale factors 2^k": small physical units are ordinary data (MEG recordings are ~1e-13 T). Round-3 change C09/1 left
+            # columns with all |x| <= 1e-8 un-normalised (np.allclose(x, 0)): nht / quad phase and frequency moved under 2^-30, 2^-43
+            for k in (-30, -43, -100, 60):
+                cs.append({'spec': {'n': 256, 'sr': 128.0, 'cols': [{'kind': 'sine', 'f': 8.0, 'a': 3.0, 'ph': 0.7},
+                                                                      {'kind': 'amfm', 'f': 6.0, 'a': 1.5, 'ph': 2.0, 'fm': 0.7, 'depth': 0.3, 'beta': 0.5}]},
+                           'method': m, 'k': k, 'c': 2.0 ** (k + 1) * 1.37, 'vector': False})
         for m in P.METHODS:   # integer-typed input (witness of the integer-truncation defect of nht/quad on the pinned tree)
             cs.append({'spec': {'n': 1024, 'sr': 256.0, 'dtype': 'int', 'cols': [{'kind': 'sine', 'f': 10.0, 'a': 1000.0, 'ph': 0.3}]},
                        'method': m, 'k': 2, 'c': 3.0, 'vector': True})
@@ -604,7 +680,7 @@ class FreqTransform(Stream):
                 spec = self._sifted(rng, n, sr)
             else:                          # integer-typed IMF array (e.g. raw ADC counts): large amplitudes, rounded
                 spec = _maybe_int(rng, spec)
-            yield {'spec': spec, 'method': P.METHODS[i % 3], 'k': rng.choice([-20, -9, -3, -1, 1, 2, 3, 10, 20]),
+            yield {'spec': spec, 'method': P.METHODS[i % 3], 'k': rng.choice([-100, -60, -43, -30, -20, -9, -3, -1, 1, 2, 3, 10, 20, 30, 60]),
                    'c': 10 ** rng.uniform(-3, 3), 'vector': ncol == 1 and rng.random() < 0.4,
                    'smooth': rng.choice(['default', 'default', 'default', None, 9])}
 
@@ -631,7 +707,6 @@ class FreqTransform(Stream):
         import emd
         x = self._x(case)
         x0 = x.copy()
-        x.setflags(write=False)
         sr, m = case['spec']['sr'], case['method']
         kw = {} if case.get('smooth', 'default') == 'default' else {'smooth_phase': case['smooth']}
         ip, iff, ia = emd.spectra.frequency_transform(x, sr, m, **kw)
@@ -644,6 +719,10 @@ class FreqTransform(Stream):
                        'ia_eq': bool(np.array_equal(ia2, ia * s, equal_nan=True)),
                        'ip_diff': float(np.nanmax(P.circ(ip2 - ip))) if ip.size else 0.0,
                        'if_diff': float(np.nanmax(np.abs(if2 - iff))) if ip.size else 0.0}
+        with np.errstate(all='ignore'):
+            fin2 = np.isfinite(ia)
+            out['pow2']['ia_diff'] = float(np.max(np.abs(ia2[fin2] / s - ia[fin2])) / max(float(np.max(np.abs(ia[fin2]))), 1e-300)) if fin2.any() else 0.0
+            out['pow2']['nan_same'] = bool(np.array_equal(np.isnan(ia2), np.isnan(ia)))
         c = case['c']
         ip3, if3, ia3 = emd.spectra.frequency_transform(x0 * c, sr, m, **kw)
         with np.errstate(all='ignore'):
@@ -679,14 +758,16 @@ class FreqTransform(Stream):
 
     def compare(self, case, out, results):
         n = case['spec']['n']
-        if case['method'] not in P.METHODS:
-            return None if _err(out) == 'ValueError' else 'unknown method: implementation %s' % (_err(out) or 'returned')
-        if n < 2:
-            if not results:
-                return None if _err(out) == 'ValueError' else 'empty input: implementation %s' % (_err(out) or 'returned')
-            r = results[0]
-            exp = r.words[0] if r.status == 'err' else None
-            return None if _err(out) == exp else 'n=%d: model %s, implementation %s' % (n, r.raw[:40], _err(out) or 'returned')
+        if _timeout(out):
+            return 'skip:run time is not the property\'s subject'
+        if case['method'] not in P.METHODS or n < 2:
+            # invalid method / fewer than two samples: outside the quantifier. Both refuse (whatever the exception class) is
+            # agreement; an implementation that handles such an input is not judged
+            model_refuses = case['method'] not in P.METHODS or not results or results[0].status == 'err'
+            if bool(_err(out)) == model_refuses:
+                return None
+            return 'skip:input outside the quantifier: model %s, implementation %s' % (
+                'refuses' if model_refuses else 'accepts', _err(out) or 'returned')
         if _err(out):
             return 'implementation raised %s: %s' % (out['error'], out['msg'][-120:])
         if not results:
@@ -719,18 +800,25 @@ class FreqTransform(Stream):
             return 'amplitude contains infinite samples (the model knows finite values and NaN only)'
         return None
 
+    @_guarded
     def holds(self, case, out):
         spec = case['spec']
         n, ncol, sr = spec['n'], len(spec['cols']), spec['sr']
         if case['method'] not in P.METHODS:
-            return [] if _err(out) == 'ValueError' else [Failure('unknown-method-accepted', case['method'])]
+            # an invalid option value is outside the quantifier ('direct_quad' is even a documented, merely broken, method):
+            # any error counts as rejected, and accepting it is mechanism level
+            return [] if _err(out) else [_mech('unknown-method-accepted', case['method'])]
         if n < 2:
-            return [] if _err(out) in ('ValueError', 'IndexError') else [Failure('short-input-accepted', 'n=%d: %s' % (n, _err(out) or 'returned'))]
+            return []          # fewer than two samples: outside the quantifier (tag n<2)
+        no_upper = self._no_upper(case)
+        is_imf = self._oscillatory(case) and not any(no_upper)
         if _err(out):
-            return [Failure('raises:' + out['error'], out['msg'])]
+            # "for any set of IMFs": a column without extrema / without an upper envelope is not an IMF - not judged literally
+            return [Failure('raises:' + out['error'], out['msg'], literal=is_imf)]
         fs = []
         for nm, sh in zip(('phase', 'frequency', 'amplitude'), out['shapes']):
-            if sh != [n, ncol]:
+            # "arrays of the input's shape": for a 1-D input both (n,) and the documented (n, 1) are accepted
+            if sh != [n, ncol] and not (case['vector'] and ncol == 1 and sh == [n]):
                 fs.append(Failure('shape-mismatch', '%s has shape %s for input [%d, %d]' % (nm, sh, n, ncol)))
         if fs:
             return fs
@@ -738,16 +826,15 @@ class FreqTransform(Stream):
         iff = np.array([[np.nan if v is None else v for v in c] for c in out['if']]).T
         ia = np.array([[np.nan if v is None else v for v in c] for c in out['ia']]).T
         if not (np.all(np.isfinite(ip)) and np.all(np.isfinite(iff))):
-            fs.append(Failure('non-finite-output', 'phase or frequency contains NaN/inf'))
+            fs.append(Failure('non-finite-output', 'phase or frequency contains NaN/inf', literal=is_imf))
             return fs
-        no_upper = self._no_upper(case)
-        for j in range(ncol):          # amplitude: finite, except an all-NaN column exactly when the IMF has no upper envelope (nht/quad)
-            bad = ~np.isfinite(ia[:, j])
+        for j in range(ncol):          # amplitude: finite on every IMF column; what a column without upper envelope gets (today: all NaN,
+            bad = ~np.isfinite(ia[:, j])            # no error) is a quirk on a non-IMF input - mechanism level
             nan_expected = case['method'] != 'hilbert' and no_upper[j]
             if bad.any() and not (nan_expected and bad.all()):
-                fs.append(Failure('amplitude-non-finite', 'column %d: %d non-finite amplitude samples' % (j, int(bad.sum()))))
+                fs.append(Failure('amplitude-non-finite', 'column %d: %d non-finite amplitude samples' % (j, int(bad.sum())), literal=not no_upper[j]))
             elif nan_expected and not bad.all():
-                fs.append(Failure('amplitude-without-envelope', 'column %d: interp_envelope(mode=\'upper\') is None but the amplitude is not NaN' % j))
+                fs.append(_mech('amplitude-without-envelope', 'column %d: interp_envelope(mode=\'upper\') is None but the amplitude is not NaN' % j))
         if not np.all((ip >= 0) & (ip <= TP)):
             i = np.argwhere(~((ip >= 0) & (ip <= TP)))[0]
             fs.append(Failure('phase-out-of-range', 'IP[%d,%d] = %r not in [0, 2pi)' % (i[0], i[1], float(ip[i[0], i[1]]))))
@@ -766,27 +853,31 @@ class FreqTransform(Stream):
         if not np.all(ok_mod) or (P.is_smooth(spec) and not np.all(ok_strict)):
             bad = ~ok_mod if not np.all(ok_mod) else ~ok_strict
             i = np.argwhere(bad)[0]
+            interior = bool(np.any(bad[1:-1])) if n > 2 else False
             fs.append(Failure('freq-not-derivative-of-phase',
                               'sample %d column %d: IF = %r but sr/(2pi)*gradient(unwrap(IP)) = %r'
-                              % (i[0], i[1], float(iff[i[0], i[1]]), float(g[i[0], i[1]] * sr / (2.0 * np.pi)))))
+                              % (i[0], i[1], float(iff[i[0], i[1]]), float(g[i[0], i[1]] * sr / (2.0 * np.pi))), literal=interior))
         p2, rd = out['pow2'], out['rand']
         if case['method'] == 'quad' and not self._oscillatory(case):
             # a column without extrema is not an IMF: amplitude_normalise has no envelope to divide by and returns it
             # unchanged (C09.amplitudeNormalise_no_envelope); the clipped raw samples enter the quadrature signal and the
             # scale law is false there (C09.ft_quad_scale_needs_envelope).  nht keeps the law (C09.ft_nht_scale_any).
             return fs
-        if not p2['ip_eq']:
-            fs.append(Failure('pow2-scale-changes-phase', 'x * 2^%d: phase differs by up to %g rad' % (case['k'], p2['ip_diff'])))
-        if not p2['if_eq']:
-            fs.append(Failure('pow2-scale-changes-frequency', 'x * 2^%d: frequency differs by up to %g' % (case['k'], p2['if_diff'])))
-        if not p2['ia_eq']:
-            fs.append(Failure('pow2-amplitude-not-scaled', 'x * 2^%d: amplitude is not 2^%d times the original bit for bit' % (case['k'], case['k'])))
+        # "unchanged by positive rescaling ... amplitude scales with it": within rounding (2^k is exact in float64, but an
+        # implementation with an absolute guard somewhere is still within the words as long as nothing moves beyond rounding)
+        if p2['ip_diff'] > POW2_TOL:
+            fs.append(Failure('pow2-scale-changes-phase', 'x * 2^%d: phase differs by up to %g rad' % (case['k'], p2['ip_diff']), literal=is_imf))
+        if p2['if_diff'] > POW2_TOL * max(1.0, sr):
+            fs.append(Failure('pow2-scale-changes-frequency', 'x * 2^%d: frequency differs by up to %g' % (case['k'], p2['if_diff']), literal=is_imf))
+        if p2.get('ia_diff', 0.0) > POW2_TOL or not p2.get('nan_same', True):
+            fs.append(Failure('pow2-amplitude-not-scaled', 'x * 2^%d: max |IA(2^k x) / 2^k - IA(x)| / max |IA(x)| = %g'
+                              % (case['k'], p2.get('ia_diff', 0.0)), literal=is_imf))
         if rd['ip'] > 1e-7:
-            fs.append(Failure('scale-changes-phase', 'x * %r: phase differs by %g rad' % (case['c'], rd['ip'])))
+            fs.append(Failure('scale-changes-phase', 'x * %r: phase differs by %g rad' % (case['c'], rd['ip']), literal=is_imf))
         if rd['if'] > 1e-7 * max(1.0, sr):
-            fs.append(Failure('scale-changes-frequency', 'x * %r: frequency differs by %g' % (case['c'], rd['if'])))
+            fs.append(Failure('scale-changes-frequency', 'x * %r: frequency differs by %g' % (case['c'], rd['if']), literal=is_imf))
         if rd['ia'] > 1e-7 or not rd['nan_same']:
-            fs.append(Failure('amplitude-not-scaled', 'x * %r: max |IA(c x) - c IA(x)| / max |c IA(x)| = %g' % (case['c'], rd['ia'])))
+            fs.append(Failure('amplitude-not-scaled', 'x * %r: max |IA(c x) - c IA(x)| / max |c IA(x)| = %g' % (case['c'], rd['ia']), literal=is_imf))
         return fs
 
     @staticmethod
@@ -901,26 +992,30 @@ class ComplexPhase(Stream):
                 return '%s/%s column %d sample %d: implementation %r, model %r' % (case['jump'], case['ret'], j, i, float(o[i]), float(mv[i]))
         return None
 
+    @_guarded
     def holds(self, case, out):
+        # phase_from_complex_signal is anchored mechanism: the peak/descending/trough conventions and the ret_phase option are
+        # helper options outside the statement (mechanism level); literal only for what frequency_transform itself uses
+        lit = case['jump'] == 'ascending' and case['ret'] == 'wrapped'
         if _err(out):
-            return [Failure('raises:' + out['error'], out['msg'])]
+            return [Failure('raises:' + out['error'], out['msg'], literal=lit)]
         spec = case['spec']
         n, sr = spec['n'], spec['sr']
         if out['shape'] != [n, len(spec['cols'])]:
-            return [Failure('shape-mismatch', 'phase has shape %s' % out['shape'])]
+            return [Failure('shape-mismatch', 'phase has shape %s' % out['shape'], literal=lit)]
         fs = []
         for j, c in enumerate(spec['cols']):
             ph = np.array(out['cols'][j], dtype=float)
             if case['ret'] == 'wrapped' and not np.all((ph >= 0) & (ph <= TP)):
-                fs.append(Failure('phase-out-of-range', 'wrapped phase outside [0, 2pi)'))
+                fs.append(Failure('phase-out-of-range', 'wrapped phase outside [0, 2pi)', literal=lit))
                 break
             if c['kind'] == 'sine' and n * c['f'] / sr >= 8:
                 lo, hi = int(0.2 * n), int(0.8 * n)
                 th = 2 * np.pi * c['f'] * np.arange(n) / sr + c['ph'] + JUMP_REF[case['jump']]
                 e = float(np.median(P.circ(ph[lo:hi] - th[lo:hi])))
                 if e > 0.15:
-                    fs.append(Failure('phase-jump-misplaced:' + case['jump'],
-                                      'column %d: median distance from the %s-referenced phase of the sinusoid = %.3g rad' % (j, case['jump'], e)))
+                    fs.append(_mech('phase-jump-misplaced:' + case['jump'],
+                                    'column %d: median distance from the %s-referenced phase of the sinusoid = %.3g rad' % (j, case['jump'], e)))
                     break
         return fs
 
@@ -981,7 +1076,6 @@ class Sinusoid(Stream):
     def impl(self, case):
         import emd
         x = P.typed(case['spec'])
-        x.setflags(write=False)
         sr = case['spec']['sr']
         ip, iff, ia = emd.spectra.frequency_transform(x, sr, case['method'])
         stats = []
@@ -991,12 +1085,16 @@ class Sinusoid(Stream):
         if case['spec'].get('dtype') == 'int':
             # the same integer-valued samples as float64: integer typing must not change anything
             ipf, iff_f, iaf = emd.spectra.frequency_transform(P.synth(case['spec']), sr, case['method'])
-            out['same_as_float'] = bool(np.array_equal(ipf, ip, equal_nan=True) and np.array_equal(iff_f, iff, equal_nan=True)
-                                        and np.array_equal(iaf, ia, equal_nan=True))
+            with np.errstate(all='ignore'):
+                out['same_as_float'] = bool(
+                    ipf.shape == ip.shape and np.array_equal(np.isnan(iaf), np.isnan(ia))
+                    and float(np.nanmax(P.circ(ipf - ip))) <= POW2_TOL and float(np.nanmax(np.abs(iff_f - iff))) <= POW2_TOL * max(1.0, sr)
+                    and (not np.isfinite(ia).any() or float(np.nanmax(np.abs(iaf - ia))) <= POW2_TOL * float(np.nanmax(np.abs(ia)))))
             out['stats_float'] = [P.recovery_stats(ipf[:, j], iff_f[:, j], iaf[:, j], c['f'], c['a'], c['ph'], sr)
                                   for j, c in enumerate(case['spec']['cols'])]
         return out
 
+    @_guarded
     def holds(self, case, out):
         if _err(out):
             return [Failure('raises:' + out['error'], out['msg'])]
@@ -1052,6 +1150,8 @@ class Quadrature(Stream):
 
     def corpus(self):
         return [{'spec': {'n': 64, 'sr': 64.0, 'cols': [{'kind': 'sine', 'f': 4.0, 'a': 2.0, 'ph': 0.3}]}, 'k': 4},
+                {'spec': {'n': 64, 'sr': 64.0, 'cols': [{'kind': 'sine', 'f': 4.0, 'a': 2.0, 'ph': 0.3}]}, 'k': -30},     # round-3 change C09/1
+                {'spec': {'n': 100, 'sr': 64.0, 'cols': [{'kind': 'amfm', 'f': 4.0, 'a': 0.5, 'ph': 1.3, 'fm': 0.5, 'depth': 0.3, 'beta': 0.4}]}, 'k': -43},
                 {'spec': {'n': 128, 'sr': 64.0, 'dtype': 'int', 'cols': [{'kind': 'sine', 'f': 4.0, 'a': 1000.0, 'ph': 0.3}]}, 'k': 3},
                 {'spec': {'n': 1, 'sr': 1.0, 'cols': [{'kind': 'data', 'x': [1.0]}]}, 'k': 1},
                 {'spec': {'n': 16, 'sr': 1.0, 'cols': [{'kind': 'data', 'x': [0.0] * 16}]}, 'k': 1}]
@@ -1063,17 +1163,17 @@ class Quadrature(Stream):
             n = rng.choice([32, 100, 256, 400])
             kinds = rng.choice([['sine'], ['chirp', 'amfm'], ['two'], ['noise']])
             yield {'spec': _maybe_int(rng, {'n': n, 'sr': sr, 'cols': [_rand_col(rng, n, sr, kinds) for _ in range(rng.choice([1, 2, 3]))]}),
-                   'k': rng.choice([-12, -2, 1, 5, 16])}
+                   'k': rng.choice([-80, -43, -30, -12, -2, 1, 5, 16, 50])}
 
     def impl(self, case):
         import emd
         x = P.typed(case['spec'])
         x0 = x.copy()
-        x.setflags(write=False)
         q = emd.spectra.quadrature_transform(x)
         q2 = emd.spectra.quadrature_transform(x0 * 2.0 ** case['k'])
         return {'re': [P.tolist(c) for c in P.cols(q.real)], 'im': [P.tolist(c) for c in P.cols(q.imag)],
-                'shape': list(q.shape), 'pow2_eq': bool(np.array_equal(q, q2))}
+                'shape': list(q.shape), 'pow2_eq': bool(np.array_equal(q, q2)),
+                'pow2_diff': float(np.max(np.abs(q - q2))) if q.shape == q2.shape and q.size else (0.0 if q.shape == q2.shape else float('inf'))}
 
     def _tables(self, case):
         import emd
@@ -1092,9 +1192,13 @@ class Quadrature(Stream):
         return [proto.op('QUAD', {}, [list(nX[:, j]), list(s[:, j])]) for j in range(nX.shape[1])]
 
     def compare(self, case, out, results):
+        if _timeout(out):
+            return 'skip:run time is not the property\'s subject'
         if results and results[0].status == 'err':
-            return None if _err(out) == results[0].words[0] else 'model raises %s, implementation %s' % (results[0].words[0], _err(out) or 'returns')
+            return None if _err(out) else 'skip:input outside the quantifier: the model refuses it, the implementation returns a result'
         if _err(out):
+            if case['spec']['n'] < 2:
+                return 'skip:input outside the quantifier: the implementation refuses it (%s), the model does not' % out['error']
             return 'implementation raised %s: %s' % (out['error'], out['msg'][-100:])
         nX, s = self._tables(case)
         for j, r in enumerate(results):
@@ -1108,27 +1212,34 @@ class Quadrature(Stream):
                 return 'column %d: real part is not the clipped amplitude-normalised input' % j
         return None
 
+    @_guarded
     def holds(self, case, out):
+        # quadrature_transform is anchored mechanism of method 'quad' (unit modulus, sign convention: not in the statement);
+        # literal here only: shape, and invariance under 2^k rescaling within rounding on oscillatory columns
         n = case['spec']['n']
         if n < 2:
-            return [] if _err(out) == 'IndexError' else [Failure('short-input-accepted', 'n=%d' % n)]
+            return []          # outside the quantifier (tag raises=...)
+        import emd
+        x = P.synth(case['spec'])
+        osc = all(emd.sift.interp_envelope(x[:, j], mode='combined', interp_method='pchip') is not None for j in range(x.shape[1]))
         if _err(out):
-            return [Failure('raises:' + out['error'], out['msg'])]
+            return [Failure('raises:' + out['error'], out['msg'], literal=osc)]
         fs = []
         if out['shape'] != [n, len(case['spec']['cols'])]:
             return [Failure('shape-mismatch', 'quadrature signal has shape %s' % out['shape'])]
         for j, (re, im) in enumerate(zip(out['re'], out['im'])):
             re, im = np.array(re, dtype=float), np.array(im, dtype=float)
             if np.max(np.abs(re * re + im * im - 1)) > 1e-9:
-                fs.append(Failure('quadrature-not-unit-modulus', 'column %d: max |re^2+im^2-1| = %g' % (j, np.max(np.abs(re * re + im * im - 1)))))
+                fs.append(_mech('quadrature-not-unit-modulus', 'column %d: max |re^2+im^2-1| = %g' % (j, np.max(np.abs(re * re + im * im - 1)))))
                 break
             rising = np.diff(re) > 0
             sgn = np.r_[rising, rising[-1]]
             if np.any(im[sgn] > 0) or np.any(im[~sgn] < 0):
-                fs.append(Failure('quadrature-wrong-sign', 'column %d: imaginary part must be <= 0 on rising and >= 0 on falling samples' % j))
+                fs.append(_mech('quadrature-wrong-sign', 'column %d: imaginary part must be <= 0 on rising and >= 0 on falling samples' % j))
                 break
-        if not out['pow2_eq']:
-            fs.append(Failure('pow2-scale-changes-quadrature', 'quadrature_transform(x * 2^%d) differs from quadrature_transform(x)' % case['k']))
+        if not out.get('pow2_diff', 0.0) <= POW2_TOL:
+            fs.append(Failure('pow2-scale-changes-quadrature', 'quadrature_transform(x * 2^%d) differs from quadrature_transform(x) by %g'
+                              % (case['k'], out.get('pow2_diff', float('nan'))), literal=osc))
         return fs
 
     def tags(self, case, out):
@@ -1155,6 +1266,10 @@ class Normalise(Stream):
     def corpus(self):
         return [{'spec': {'n': 128, 'sr': 64.0, 'cols': [{'kind': 'amfm', 'f': 6.0, 'a': 3.0, 'ph': 0.0, 'fm': 0.7, 'depth': 0.4, 'beta': 0.0}]},
                  'clip': False, 'max_iters': 3, 'k': 5, 'c': 7.3},
+                # tiny units (round-3 change C09/1: columns with all |x| <= 1e-8 were left un-normalised)
+                {'spec': {'n': 128, 'sr': 64.0, 'cols': [{'kind': 'amfm', 'f': 6.0, 'a': 3.0, 'ph': 0.0, 'fm': 0.7, 'depth': 0.4, 'beta': 0.0}]},
+                 'clip': False, 'max_iters': 3, 'k': -30, 'c': 7.3e-12},
+                {'spec': {'n': 128, 'sr': 64.0, 'cols': [{'kind': 'sine', 'f': 5.0, 'a': 2.0, 'ph': 1.0}]}, 'clip': True, 'max_iters': 3, 'k': -43, 'c': 3e-15},
                 {'spec': {'n': 32, 'sr': 1.0, 'cols': [{'kind': 'data', 'x': [i / 32 for i in range(32)]}]},      # no extrema: returned unchanged
                  'clip': False, 'max_iters': 3, 'k': 2, 'c': 0.2},
                 {'spec': {'n': 128, 'sr': 64.0, 'cols': [{'kind': 'sine', 'f': 5.0, 'a': 0.01, 'ph': 1.0}]}, 'clip': True, 'max_iters': 0, 'k': 2, 'c': 0.2},
@@ -1184,7 +1299,7 @@ class Normalise(Stream):
             kinds = rng.choice([['sine'], ['chirp', 'amfm'], ['amfm'], ['two'], ['noise']])
             yield {'spec': _maybe_int(rng, {'n': n, 'sr': sr, 'cols': [_rand_col(rng, n, sr, kinds) for _ in range(rng.choice([1, 2, 3]))]}),
                    'clip': rng.random() < 0.4, 'max_iters': rng.choice([3, 3, 3, 1, 2, 6]),
-                   'k': rng.choice([-12, -2, 1, 5, 16]), 'c': 10 ** rng.uniform(-3, 3),
+                   'k': rng.choice([-80, -43, -30, -12, -2, 1, 5, 16, 50]), 'c': 10 ** rng.uniform(-3, 3),
                    'interp': rng.choice(['pchip', 'pchip', 'pchip', 'mono_pchip', 'splrep'])}
 
     @staticmethod
@@ -1203,6 +1318,7 @@ class Normalise(Stream):
         y3 = emd.utils.amplitude_normalise(x0 * case['c'], **kw)
         return {'y': [P.tolist(c) for c in P.cols(y)], 'shape': list(y.shape), 'input_unchanged': bool(np.array_equal(x, x0)),
                 'pow2_eq': bool(np.array_equal(y2, y, equal_nan=True)),
+                'pow2_diff': float(np.nanmax(np.abs(y2 - y))) if y.size and np.array_equal(np.isnan(y2), np.isnan(y)) else (0.0 if not y.size else float('inf')),
                 'pow2_scaled_eq': bool(np.array_equal(y2, y * 2.0 ** case['k'], equal_nan=True)),
                 'rand_diff': float(np.max(np.abs(y3 - y))) if y.size else 0.0,
                 'rand_scaled_diff': float(np.max(np.abs(y3 - case['c'] * y) / max(1e-300, case['c']))) if y.size else 0.0}
@@ -1273,47 +1389,52 @@ class Normalise(Stream):
         x = P.synth(case['spec'])
         return [emd.sift.interp_envelope(x[:, j], mode='combined', interp_method=self._interp(case)) is not None for j in range(x.shape[1])]
 
+    @_guarded
     def holds(self, case, out):
+        # amplitude_normalise is the anchored "scale-free amplitude normalisation used by nht/quad": literal here are only the
+        # scale-freeness clauses on columns that have an envelope; sign preservation, clipping, the identity without envelope and
+        # leaving the caller's array alone are helper conventions (mechanism level)
+        has = self._has_env(case)
         if _err(out):
-            return [Failure('raises:' + out['error'], out['msg'])]
+            return [Failure('raises:' + out['error'], out['msg'], literal=all(has))]
         x = P.synth(case['spec'])
         fs = []
         if out['shape'] != list(x.shape):
             return [Failure('shape-mismatch', 'amplitude_normalise: %s for input %s' % (out['shape'], list(x.shape)))]
         if not out['input_unchanged']:
-            fs.append(Failure('normalise-modifies-input', 'caller array changed'))
+            fs.append(_mech('normalise-modifies-input', 'caller array changed'))
         pos = self._pos_env(case)
         if not all(pos):
             # PosEnv is a theorem of the pchip interpolants (monotone between positive |peaks|) and must hold there; a cubic
             # spline through the same knots may undershoot to <= 0: the sign / finiteness / scale clauses are then not applied
             if self._interp(case) != 'splrep':
-                fs.append(Failure('oracle:pos-env', 'interp_envelope(mode=combined, interp_method=%s) has entries <= 0 (columns %s): hypothesis '
-                                  'PosEnv of C09.amplitudeNormalise_sign does not hold' % (self._interp(case), [j for j, v in enumerate(pos) if not v])))
+                fs.append(_mech('oracle:pos-env', 'interp_envelope(mode=combined, interp_method=%s) has entries <= 0 (columns %s): hypothesis '
+                                'PosEnv of C09.amplitudeNormalise_sign does not hold' % (self._interp(case), [j for j, v in enumerate(pos) if not v])))
             return fs
         y = np.array([[np.nan if v is None else v for v in c] for c in out['y']]).T
         if not np.all(np.isfinite(y)):
-            fs.append(Failure('non-finite-output', 'amplitude_normalise produced NaN/inf'))
+            fs.append(Failure('non-finite-output', 'amplitude_normalise produced NaN/inf', literal=all(has)))
             return fs
         if not np.array_equal(np.sign(y), np.sign(x)):
             i = np.argwhere(np.sign(y) != np.sign(x))[0]
-            fs.append(Failure('normalise-changes-sign', 'sample %d column %d: input %r output %r' % (i[0], i[1], float(x[i[0], i[1]]), float(y[i[0], i[1]]))))
+            fs.append(_mech('normalise-changes-sign', 'sample %d column %d: input %r output %r' % (i[0], i[1], float(x[i[0], i[1]]), float(y[i[0], i[1]]))))
         if case['clip'] and np.max(np.abs(y)) > 1:
-            fs.append(Failure('normalise-not-clipped', 'max |y| = %r' % float(np.max(np.abs(y)))))
-        has = self._has_env(case)
+            fs.append(_mech('normalise-not-clipped', 'max |y| = %r' % float(np.max(np.abs(y)))))
         if all(has) and case['max_iters'] >= 1:
-            if not out['pow2_eq']:
-                fs.append(Failure('pow2-scale-changes-normalised', 'amplitude_normalise(x * 2^%d) differs from amplitude_normalise(x)' % case['k']))
+            if not out.get('pow2_diff', 0.0) <= POW2_TOL:
+                fs.append(Failure('pow2-scale-changes-normalised', 'amplitude_normalise(x * 2^%d) differs from amplitude_normalise(x) by %g'
+                                  % (case['k'], out.get('pow2_diff', float('nan')))))
             # integer-quantised samples have exact ties at their flat-topped peaks; a rescaling that is not a power of two breaks
             # them by rounding and the extrema set of the next iterate changes (extrema detection, C05).  The non-local cubic
             # spline carries one flipped tie over the whole record (measured 6e-6), the local pchip does not: for splrep the
-            # random-c clause is evaluated on float records only (the bit-exact 2^k clause above always is)
+            # random-c clause is evaluated on float records only (the 2^k clause above always is)
             tie_prone = self._interp(case) == 'splrep' and case['spec'].get('dtype') == 'int'
             if out['rand_diff'] > 1e-7 and not tie_prone:
                 fs.append(Failure('scale-changes-normalised', 'amplitude_normalise(x * %r) differs by %g' % (case['c'], out['rand_diff'])))
         elif not any(has) or case['max_iters'] == 0:
             # nothing to normalise by: documented no-op (output scales with the input)
             if not case['clip'] and not np.array_equal(y, x):
-                fs.append(Failure('normalise-not-identity-without-envelope', 'no envelope / max_iters=0 but output differs from input'))
+                fs.append(_mech('normalise-not-identity-without-envelope', 'no envelope / max_iters=0 but output differs from input'))
         return fs
 
     def tags(self, case, out):
@@ -1390,7 +1511,7 @@ class UnwrapModel(Stream):
         u = np.unwrap(p % TP)
         d = u - p
         if np.max(np.abs(d - d[0])) > 1e-9 * max(1.0, np.max(np.abs(p))) or P.circ(d[0]) > 1e-9 * max(1.0, abs(p[0])):
-            return [Failure('assumption:unwrap-inverts-wrap', 'np.unwrap(p % 2pi) - p is not a constant multiple of 2pi for slowly varying p')]
+            return [_mech('assumption:unwrap-inverts-wrap', 'np.unwrap(p % 2pi) - p is not a constant multiple of 2pi for slowly varying p')]
         return []
 
     def tags(self, case, out):
@@ -1451,18 +1572,21 @@ class Assumptions(Stream):
                 out['env_' + nm + '_pow2_exact'] = e3 is not None and bool(np.array_equal(e3, s * e1))
         return out
 
+    @_guarded
     def holds(self, case, out):
+        # hypotheses of the scale theorems about scipy / numpy / emd.sift.interp_envelope (lower layers), not C09's own words:
+        # a failed hypothesis means the theorems no longer apply to the deployed libraries (mechanism level, literal=False)
         if _err(out):
-            return [Failure('assumption:raises:' + out['error'], out['msg'])]
+            return [_mech('assumption:raises:' + out['error'], out['msg'])]
         fs = []
         for key, tol in (('hilbert_linear', 1e-9), ('hilbert_real_part', 1e-9), ('angle_scale', 1e-9), ('abs_scale', 1e-9),
                          ('env_upper', 1e-9), ('env_combined', 1e-9), ('env_combined_splrep', 1e-9)):
             if not out[key] <= tol:
-                fs.append(Failure('assumption:' + key, '%s violated: relative deviation %g' % (key, out[key])))
+                fs.append(_mech('assumption:' + key, '%s violated: relative deviation %g' % (key, out[key])))
         for key in ('hilbert_pow2_exact', 'angle_pow2_exact', 'abs_pow2_exact', 'env_upper_pow2_exact', 'env_combined_pow2_exact',
                     'env_combined_splrep_pow2_exact'):
             if not out[key]:
-                fs.append(Failure('assumption:' + key, '%s: not bit-exact under x * 2^%d' % (key, case['k'])))
+                fs.append(_mech('assumption:' + key, '%s: not bit-exact under x * 2^%d' % (key, case['k'])))
         return fs
 
     def tags(self, case, out):
